@@ -156,7 +156,10 @@ func HashClean() {
 func HashDet() {
 	n := sym.ParamInt("n", 2)
 	// contents of two files are symbolic so that "same content or not" is the solver's choice
-	ca, cab := sym.String("content_a", 1), sym.String("content_ab", 1)
+	// calen: the length of file a's content. With 2 bytes against ab's 1, "a"+content_a and
+	// "ab"+content_ab can be the same byte string: a digest built from path and content without
+	// a boundary between them then misses a rename-with-edit (seeded change C04c, DESIGN.md 9.5).
+	ca, cab := sym.String("content_a", sym.ParamInt("calen", 1)), sym.String("content_ab", 1)
 	w := newHashWorld(ca, cab, false)
 	defer w.cleanup()
 	maxcpus := sym.ParamInt("maxcpus", 2)
